@@ -31,7 +31,7 @@ func typeKey(t types.Type) string {
 		}
 		return short(o.Pkg().Path()) + "." + o.Name()
 	}
-	return short(types.TypeString(t, nil))
+	return typeStr(t)
 }
 
 // FieldAccess is a read or write of field (T, F).
@@ -194,4 +194,28 @@ func FuncNames(as []FieldAccess) []string {
 	}
 	sort.Strings(out)
 	return out
+}
+
+// typeStr renders a type with aliases replaced by what they stand for (types.Alert and
+// alert.Alert are one type; which spelling the source uses must not matter).
+func typeStr(t types.Type) string { return short(types.TypeString(unaliasDeep(t, 0), nil)) }
+
+func unaliasDeep(t types.Type, d int) types.Type {
+	if d > 6 {
+		return t
+	}
+	t = types.Unalias(t)
+	switch x := t.(type) {
+	case *types.Pointer:
+		return types.NewPointer(unaliasDeep(x.Elem(), d+1))
+	case *types.Slice:
+		return types.NewSlice(unaliasDeep(x.Elem(), d+1))
+	case *types.Array:
+		return types.NewArray(unaliasDeep(x.Elem(), d+1), x.Len())
+	case *types.Map:
+		return types.NewMap(unaliasDeep(x.Key(), d+1), unaliasDeep(x.Elem(), d+1))
+	case *types.Chan:
+		return types.NewChan(x.Dir(), unaliasDeep(x.Elem(), d+1))
+	}
+	return t
 }
